@@ -1,5 +1,5 @@
 #!/bin/bash
-# tools/regress_seeds.sh [jobs] : run every stored seeded change against the quick check of its
+# tools/regress_seeds.sh [jobs [seed ids...]] : run every stored seeded change against the quick check of its
 # property in its own scratch worktree (VERIF_REPO), never touching /repo. Prints one line per seed.
 # Evidence of these runs goes to a scratch directory, not to /verif/evidence.
 set -u
@@ -25,4 +25,7 @@ run_one() {
   rm -rf /tmp/rs-ev-$id
 }
 export -f run_one
-ls /verif/seeded | xargs -P $jobs -I{} bash -c 'run_one {}'
+# remaining arguments: seed ids (default: all)
+shift || true
+if [ $# -gt 0 ]; then ids="$*"; else ids=$(ls /verif/seeded); fi
+echo $ids | tr ' ' '\n' | xargs -P $jobs -I{} bash -c 'run_one {}'
